@@ -5,6 +5,7 @@ import (
 	"encoding/json"
 	"fmt"
 	"os"
+	"runtime/pprof"
 
 	"verif/internal/checks"
 	"verif/internal/ev"
@@ -89,6 +90,14 @@ func main() {
 		}
 		fmt.Println("replaying case", c)
 	}
+	if pf := os.Getenv("VERIF_CPUPROFILE"); pf != "" {
+		if f, err := os.Create(pf); err == nil {
+			pprof.StartCPUProfile(f)
+			defer pprof.StopCPUProfile()
+		}
+	}
 	ent.fn(rep, tier)
-	os.Exit(rep.Finish())
+	rc := rep.Finish()
+	pprof.StopCPUProfile()
+	os.Exit(rc)
 }
